@@ -33,6 +33,8 @@ inductive Kind where
   | list                 -- Python list
   | array                -- ndarray (cells immutable) or object ndarray (cells are references: `Trace` objects)
   | dict                 -- dict (aliases, submodels)
+  | tuple                -- tuple / namedtuple that (transitively) holds a mutable object: itself immutable, but a node
+                         --   with edges to mutable children, so `copy.deepcopy` must build a new one around copied children
   | trace                -- `fsic.extensions.model.Trace` instance (attributes names / index / values)
   | inst (cls : Nat)     -- `__dict__` of a container / model / linker instance of class number `cls`
   | cls                  -- class-level attributes of a class (ENDOGENOUS, CHECK, NAMES, ALIASES, …)
@@ -282,6 +284,11 @@ inductive Op where
       -- variable (the array at `src`): `m.X = other.Y`, `m['X'] = other['Y']`, `m.replace_values(X=other.Y)`,
       -- `m.values = other.values`, `m.X = other.Y[:]` store element values into the existing array (`inplace`);
       -- `m.X = list(other.Y)` binds a new array built from the values.  Never the passed object itself.
+  | setAt (f : List String) (k : String) (v : Imm)         -- `<object at f>[k] = <immutable>` (inner list / dict / array)
+  | buildAttr (x : String) (nodes : List (List String × String × Kind × List (String × Imm)))
+      -- `add_attribute(x, <nested value>)`: lists, dicts, nested lists, tuples of lists, namedtuples holding dicts,
+      -- tuples of arrays …  The value is built node by node, outermost first: `(path, key, kind, immutable slots)`
+      -- creates a new object under `key` of the object at `path`.
   | inSub (key : String) (op : Op)                         -- the same through `linker.submodels[key]`
   deriving Repr
 
@@ -305,6 +312,10 @@ def prefixStep (pre : List String) (s : Step) : Step :=
 
 def opSteps : Op → List Step
   | .setCell x i v => [⟨["_" ++ x], .setImm (keyOf i) v⟩]
+  | .setAt f k v => [⟨f, .setImm k v⟩]
+  | .buildAttr x nodes =>
+    nodes.map (fun nd => ⟨nd.1, .bindNew nd.2.1 nd.2.2.1 (nd.2.2.2.map fun kv => (kv.1, Src.imm kv.2))⟩) ++
+      [⟨["_attributes"], .push (.str x)⟩]
   | .assignFrom x src inplace =>
     if inplace then [⟨["_" ++ x], .copyCells (.ext src)⟩] else [⟨[], .copyArray ("_" ++ x) (.ext src)⟩]
   | .rebind x n => [⟨[], .bindNew ("_" ++ x) .array (cellSrcs n)⟩]
@@ -390,11 +401,19 @@ def stageAlias (cd : ClassDesc) (h : Heap) : Heap × List (String × Val) :=
      [("aliases", .ref h.length), ("preferred_names", .ref (h.length + 1))])
   else (h, [])
 
-/-- Stage 2: linker-only entries set before `ModelInterface.__init__`. -/
-def stageLinker (cd : ClassDesc) (sub : Val) : List (String × Val) :=
+/-- Stage 2: linker-only entries set before `ModelInterface.__init__`.  `submodels=None` (the default) becomes a
+    NEW empty dict (`if submodels is None or len(submodels) == 0: submodels = {}`); a dict passed by the caller is
+    stored by reference.  (The code also replaces an *empty* dict argument by a new `{}`; the model keeps the
+    reference in that case — no program of the correspondence check passes an empty dict.) -/
+def stageLinker (cd : ClassDesc) (sub : Val) (h : Heap) : Heap × List (String × Val) :=
   if cd.base = .linker then
-    [("submodels", sub), ("name", .imm (.str "_")), ("_LAGS", .imm (.int 0)), ("_LEADS", .imm (.int 0))]
-  else []
+    match sub with
+    | .imm _ =>
+      (h ++ [⟨.dict, []⟩],
+       [("submodels", .ref h.length), ("name", .imm (.str "_")), ("_LAGS", .imm (.int 0)), ("_LEADS", .imm (.int 0))])
+    | .ref _ =>
+      (h, [("submodels", sub), ("name", .imm (.str "_")), ("_LAGS", .imm (.int 0)), ("_LEADS", .imm (.int 0))])
+  else (h, [])
 
 /-- Stage 3: `VectorContainer.__init__`. -/
 def stageContainer (cd : ClassDesc) (names : List String) (span : Val) (h : Heap) : Heap × List (String × Val) :=
@@ -445,7 +464,7 @@ def construct (cd : ClassDesc) (h : Heap) (span sub : Val) : Heap × List (Strin
     (thread (stageModel cd (classAttr h cd "ENDOGENOUS") (classAttr h cd "CHECK"))
       (thread (stageInterface cd (modelNames h cd) (spanLen h span))
         (thread (stageContainer cd (modelNames h cd) span)
-          (thread (fun h0 => (h0, stageLinker cd sub))
+          (thread (stageLinker cd sub)
             (thread (stageAlias cd) (h, []))))))
 
 /-- `cls(span)` / `cls(submodels)`: a new instance of class number `ci`; returns its location. -/
@@ -575,7 +594,7 @@ def immStr : Imm → String
   | .tag s => "<" ++ s ++ ">"
 
 def kindStr : Kind → String
-  | .list => "list" | .array => "array" | .dict => "dict" | .trace => "trace"
+  | .list => "list" | .array => "array" | .dict => "dict" | .trace => "trace" | .tuple => "tuple"
   | .inst c => "inst" ++ toString c | .cls => "class"
 
 /-- The value seen through `v` with all locations abstracted away (tree unfolding to depth `fuel`). -/
